@@ -25,6 +25,7 @@ def run(prog, R, tier="quick", only_rule=None):
     c05b(prog, R)
     c05c(prog, R)
     c05d(prog, R)
+    c05e(prog, R)
 
 
 def dirsync_set(prog):
@@ -229,38 +230,71 @@ def nothing_published_path(f, c):
     return True
 
 
+MKDIR = ("std::fs::create_dir_all", "std::fs::create_dir", "std::fs::DirBuilder::create")
+
+
 def c05d(prog, R):
     r = R.rule("C05.d", "tree creation syncs new directories before the first version is published", "P")
     f = prog.need("tree::Tree::create_new")
     dsync = dirsync_set(prog)
-    mk = f.calls_to(A.CREATE_DIR_ALL)
-    pub = [c for c in f.calls if MustSet(prog, [A.PERSIST_VERSION], "persist*").call_in(c)]
+    mk = f.calls_to(*MKDIR)
+    persist = MustSet(prog, [A.PERSIST_VERSION], "persist*")
+    pub = [c for c in f.calls if persist.call_in(c)]
     if not pub:
         r.anchor_missing("persist_version reached from Tree::create_new")
     if len(mk) < 2:
-        r.anchor_missing("create_dir_all x2 in Tree::create_new")
+        r.anchor_missing("two directory creations in Tree::create_new")
     for pc in pub:
         for m in mk:
             ok = must_pass(f, dsync, from_bbs=[m.bb], to_bbs=[pc.bb], success_only=False)
-            r.check(ok, "%s|create_dir_all@%d=>fsync_directory=>persist" % (f.path, mk.index(m)),
+            r.check(ok, "%s|mkdir@%d=>fsync_directory=>persist" % (f.path, mk.index(m)),
                     "first version can be published before the new directory is synced", f.where(m.bb))
         ds = [c for c in f.calls if dsync.call_in(c)]
         r.check(len(ds) >= 2, "%s|both directories synced" % f.path, "fewer than two directory syncs in create_new",
                 f.where(), "%d fsync_directory call(s)" % len(ds))
     # BlobTree::open creates blobs/ and syncs it
     g = prog.need("blob_tree::BlobTree::open")
-    mk = g.calls_to(A.CREATE_DIR_ALL)
+    mk = g.calls_to(*MKDIR)
     if not mk:
-        r.anchor_missing("create_dir_all in BlobTree::open")
+        r.anchor_missing("directory creation in BlobTree::open")
     for m in mk:
-        r.check(must_pass(g, dsync, from_bbs=[m.bb]), "%s|create_dir_all(blobs)=>fsync_directory" % g.path,
+        r.check(must_pass(g, dsync, from_bbs=[m.bb]), "%s|mkdir(blobs)=>fsync_directory" % g.path,
                 "blobs/ directory created without a directory sync on a success path", g.where(m.bb))
     # recover_levels re-creates tables/ when missing
     h = prog.need("tree::Tree::recover_levels")
-    for m in h.calls_to(A.CREATE_DIR_ALL):
-        r.check(must_pass(h, dsync, from_bbs=[m.bb]), "%s|create_dir_all(tables)=>fsync_directory" % h.path,
+    for m in h.calls_to(*MKDIR):
+        r.check(must_pass(h, dsync, from_bbs=[m.bb]), "%s|mkdir(tables)=>fsync_directory" % h.path,
                 "tables/ directory re-created without a directory sync", h.where(m.bb))
     r.floor(5)
+
+
+def c05e(prog, R):
+    r = R.rule("C05.e", "creation and recovery tolerate what an interrupted attempt left behind", "W")
+    # directories: only the idempotent create_dir_all (a crash after mkdir must not make the next open fail)
+    n = 0
+    for c in prog.all_calls(*MKDIR):
+        n += 1
+        r.check(c.sres == "std::fs::create_dir_all", "%s|creates its directory idempotently" % c.fn.path,
+                "a directory is created with the non-idempotent %s: after a crash between this mkdir and the publication "
+                "of `current` every later open fails with AlreadyExists" % short(c.sres), c.fn.where(c.bb))
+    if n < 4:
+        r.anchor_missing("directory creation sites (found %d)" % n)
+    # files: create_new (fails on leftovers) only where the name is a fresh id (table writer); everything else truncates
+    for c in prog.all_calls(A.FILE_CREATE_NEW):
+        ok = c.fn.path == "table::writer::Writer::new"
+        r.check(ok, "%s|File::create_new only for fresh table ids" % c.fn.path,
+                "a file is opened with create_new outside the table writer: a leftover of a crashed attempt makes every "
+                "retry fail", c.fn.where(c.bb))
+    # Tree::open decides between create and recover on the presence of `current` (the last thing a creation publishes)
+    o = prog.need("tree::Tree::open")
+    h = prog.hir.get(o.path)
+    conds = []
+    if h:
+        from rules.engine import hir_walk, hir_expr_str
+        conds = [hir_expr_str(n_["c"], 200) for n_ in hir_walk(h["body"]) if n_.get("k") == "if"]
+    r.check(any("CURRENT_VERSION_FILE" in c and "try_exists" in c for c in conds), "%s|recover iff `current` exists" % o.path,
+            "open() no longer keys the create/recover decision on the `current` file", o.where(), str(conds))
+    r.floor(6)
 
 LEVEL_TEXT = ("Static must/ordering analysis of the crash-safety protocol on every MIR control-flow path: sync before "
               "publish, publish order of v<N>/current, publish before unlink, durable directory creation. Holds for every "
